@@ -57,6 +57,18 @@ def specMajority (alphabet : Nat) (ig iN : Bool) (col : List Byte) : Byte × Nat
   | some p => (p.1, p.2, total)
   | none => (up.headD 0, col.length, 0)
 
+/-- the per-sequence variant: model = `removeCharacterSeqs` on the alignment built from the rows (the
+harness adds them one by one to a fresh alignment); independent statement = the rows that do not
+qualify under `specQualifies` (the sequence in the role of the column), in order, untouched -/
+def seqsCase (alpha : Nat) (rows : Rows) (c : Byte) (num den : Nat) (ic ig iN : Bool) (impl : String) : Ans :=
+  let b := addAllIgnore (newAlign alpha) rows
+  let m := match removeCharacterSeqs (cutoffTest num den) c ic ig iN b with
+    | none => "panic"
+    | some r => toString r.2 ++ " " ++ toString r.1.length ++ " " ++ encRows (pairs r.1)
+  let kept := rows.filter fun r => !specQualifies num den r.2 [c] alpha ic ig iN false
+  let exp := toString (rows.length - kept.length) ++ " " ++ toString (if kept.isEmpty then (-1 : Int) else lenOf rows) ++ " " ++ encRows kept
+  ⟨m, verdictOf (impl == exp) (if impl.startsWith "panic" then "crash" else "rmseqs-spec")⟩
+
 def handle : Handler := fun op args impl =>
   match op, args with
   | "rmsites", [alpha, rows, cs, cut, ends, ic, ig, iN, rev] => do
@@ -103,6 +115,17 @@ def handle : Handler := fun op args impl =>
     let m := encRows [("consensus", (List.range L.toNat).map fun j => (maxCharSite alpha ig iN (columnAt rows j)).1)]
     let e := encRows [("consensus", (List.range L.toNat).map fun j => (specMajority alpha ig iN (columnAt rows j)).1)]
     some ⟨m, verdictOf (impl == e) (if impl.startsWith "NONDET" then "nondeterministic" else "consensus-spec")⟩
+  | "rmseqs", [alpha, rows, c, cut, ic, ig, iN] => do
+    let alpha ← alpha.toNat?
+    let rows ← decRows rows
+    let (num, den) ← frac cut
+    let c ← (bytesOfString c).head?
+    some (seqsCase alpha rows c num den (decBool ic) (decBool ig) (decBool iN) impl)
+  | "rmgapseqs", [alpha, rows, cut, iN] => do
+    let alpha ← alpha.toNat?
+    let rows ← decRows rows
+    let (num, den) ← frac cut
+    some (seqsCase alpha rows GAP num den false false (decBool iN) impl)
   | _, _ => none
 
 end Gv.Oracle.CleanOps
